@@ -1437,3 +1437,16 @@ func (i *interpreter) trimSetSyntactic(s value, cutset string, left, right bool)
 	}
 	return concatOf(segs), true
 }
+
+// namedTypeOrNil: as namedType, nil if the package or type is not loaded.
+func (i *interpreter) namedTypeOrNil(pkgPath, name string) types.Type {
+	pkg := i.prog.ImportedPackage(pkgPath)
+	if pkg == nil {
+		return nil
+	}
+	m := pkg.Members[name]
+	if m == nil {
+		return nil
+	}
+	return m.Type()
+}
